@@ -42,6 +42,17 @@ Theorem C02_closed_always :
 Proof. exact fclosed_always. Qed.
 Print Assumptions C02_closed_always.
 
+(* The same at the level of keys -- what a digest-keyed destination answers to Exists: every node whose
+   key the destination holds (also a "twin" of a stored node) has all its successors held.  This is where
+   [mt_consistent] is needed; without it C01's F12 witness applies. *)
+Theorem C02_closed_always_keys :
+  forall (g : graph) (c : cfg) (ext : bool) (d0 : list node) (tr : list fevent) (fs : fstate),
+    ext_ok g c ext d0 -> closed_nodes g d0 -> mt_consistent g ->
+    faccepts g c ext d0 tr = Some fs ->
+    forall n x, has g (dst (fb fs)) n = true -> In x (succ' g n) -> has g (dst (fb fs)) x = true.
+Proof. exact fclosed_keys. Qed.
+Print Assumptions C02_closed_always_keys.
+
 (* ... hence at every instant: every prefix of an accepted trace is accepted and leaves the
    destination link-closed. *)
 Theorem C02_closed_every_prefix :
